@@ -50,7 +50,9 @@ func (ss *SlotScope) SetSlot(name string, content *SlotContent) {
 // If slot content was provided by the component user, use that.
 // Otherwise, render the fallback content (children of the slot element).
 func (v *Vue) evalSlot(ctx VueContext, node *html.Node, slotScope *SlotScope) ([]*html.Node, error) {
-	slotName := helpers.GetAttr(node, "name")
+	// The includer names the slot in an attribute key (v-slot:name, #name), which the HTML
+	// parser lower-cases: slot names are matched without regard to case
+	slotName := strings.ToLower(helpers.GetAttr(node, "name"))
 	if slotName == "" {
 		slotName = "default"
 	}
